@@ -311,3 +311,375 @@ def replay_md(rep, nat, h, res):
             rep.violation(bad[0], bad[1], {"kind": "eval", "fn": "markdown_parse", "args": [doc, ["s"]], "native": [nk, nv], "harness": h.name})
         else:
             rep.mismatches.append("%s: solver witness %r did not reproduce natively: %s" % (h.name, doc, str(nv)[:200]))
+
+
+# =====================================================================================================
+# Cram documents (C07)
+
+CRAM_TEMPLATES = {
+    "T": ("t", 1),        # unindented title line
+    "B": ("", 0),         # blank
+    "K": ("#", 1),        # unindented comment
+    "C": ("  $ ", 1),     # command
+    "G": ("  > ", 1),     # continuation
+    "X": ("  ", 2),       # expectation: two letters
+    "S": ("   ", 1),      # expectation with a leading blank (three spaces + letter)
+    "W": ("  ", 1, " "),  # expectation with trailing blank
+    "R": ("  [7]", 0),    # exit code
+}
+
+
+def cram_line(ctx, t, i):
+    spec = CRAM_TEMPLATES[t]
+    prefix, n = spec[0], spec[1]
+    suffix = spec[2] if len(spec) > 2 else ""
+    payload = []
+    for j in range(n):
+        ch = ctx.sym_char("y%d_%d" % (i, j), 1)
+        ctx.add(z3.And(ch.z() >= ord("a"), ch.z() <= ord("z")))
+        payload.append(ch)
+    return [SInt(ord(c), "char") for c in prefix] + payload + [SInt(ord(c), "char") for c in suffix], payload
+
+
+def cram_reference(seq):
+    """expected parse of a Cram template sequence per the statement of C07 ('error' = must not be accepted silently… the
+    statement allows an error for every document, so only Ok results are constrained)"""
+    tests = []
+    cur = None
+    title = None
+    title_fresh = False
+    in_command = False
+    orphan = False
+    for i, t in enumerate(seq):
+        if t == "K":
+            continue
+        if t == "B":
+            if cur is not None:
+                tests.append(cur)
+                cur = None
+            elif orphan:
+                return "error"
+            in_command = False
+            continue
+        if t == "T":
+            if cur is not None:
+                tests.append(cur)
+                cur = None
+            elif orphan:
+                return "error"
+            title, title_fresh = i, True
+            in_command = False
+            continue
+        if t == "C":
+            if cur is not None:
+                tests.append(cur)
+            elif orphan:
+                return "error"
+            cur = {"cmd": [i], "exps": [], "exit": None, "line": i + 1, "title": title if title_fresh else ("skip" if title is not None else None)}
+            title_fresh = False
+            in_command = True
+            continue
+        # body lines
+        if cur is None:
+            orphan = True          # output without a command: an error
+            continue
+        if t == "G" and in_command:
+            cur["cmd"].append(i)
+            continue
+        in_command = False
+        if t == "R":
+            if cur["exit"] is not None:
+                return "error"
+            cur["exit"] = 7
+        else:
+            cur["exps"].append(i)
+    if cur is not None:
+        tests.append(cur)
+    elif orphan:
+        return "error"
+    return tests
+
+
+def cram_parse_driver(ctx, args):
+    """<CramParser as Parser>::parse on a template document"""
+    prog = ctx.program
+    parse = find_method(prog, "parsers/cram.rs", "parse")
+    from props.c08 import get_maker
+    maker = get_maker(ctx)
+    parser = mk_struct("CramParser", expectation_maker=maker, indention=mk_int(2, "usize"))
+    return ctx.call(parse, [new_ref(parser), args[0]])
+
+
+def mk_cram_setup(seq):
+    def setup(ctx):
+        text, lines, payloads = [], [], []
+        for i, t in enumerate(seq):
+            chars, payload = cram_line(ctx, t, i)
+            lines.append(chars)
+            payloads.append(payload)
+            text += chars + [SInt(10, "char")]
+        ctx.notes.update(seq=seq, lines=lines, payloads=payloads)
+        return [Str(text)]
+    return setup
+
+
+def cram_post(ctx, args, kind, value):
+    if kind != "return":
+        return False
+    seq, lines = ctx.notes["seq"], ctx.notes["lines"]
+    if value.variant == "Err":
+        return True
+    want = cram_reference(seq)
+    if want == "error":
+        return False
+    tests = as_items(value.fields[0].fields[1])
+    if len(tests) != len(want):
+        return False
+    conds = []
+    for got, w in zip(tests, want):
+        cmd = []
+        for k, idx in enumerate(w["cmd"]):
+            if k:
+                cmd.append(SInt(10, "char"))
+            cmd += lines[idx][4:]
+        conds.append(same(list(as_str(field_of(got, "shell_expression")).chars), cmd))
+        ln = field_of(got, "line_number")
+        conds.append(ln.concrete and ln.v == w["line"])
+        ec = field_of(got, "exit_code")
+        conds.append(ec.variant == "None" if w["exit"] is None else (ec.variant == "Some" and ec.fields[0].concrete and ec.fields[0].v == 7))
+        exps = as_items(field_of(got, "expectations"))
+        if len(exps) != len(w["exps"]):
+            return False
+        for e, idx in zip(exps, w["exps"]):
+            conds.append(same(list(as_str(e.fields[3]).chars), lines[idx][2:]))     # indentation removed, the rest verbatim
+        if w["title"] != "skip":
+            t = list(as_str(field_of(got, "title")).chars)
+            conds.append(same(t, lines[w["title"]]) if w["title"] is not None else len(t) == 0)
+        cfg = field_of(got, "config")
+        os_ = field_of(cfg, "output_stream")
+        conds.append(os_.variant == "Some" and os_.fields[0].variant == "Combined")
+        kc = field_of(cfg, "keep_crlf")
+        conds.append(kc.variant == "Some" and kc.fields[0].concrete and kc.fields[0].v is True)
+    return z_and(conds)
+
+
+def cram_sequences(max_len, alphabet="TBKCGXSWR"):
+    out = []
+    for n in range(0, max_len + 1):
+        for seq in itertools.product(alphabet, repeat=n):
+            s = "".join(seq)
+            if "C" not in s and n > 2:
+                continue
+            out.append(s)
+    return out
+
+
+def cram_judge_native(seq, lines, nv):
+    want = cram_reference(seq)
+    if "Err" in nv:
+        return None
+    tests = nv["Ok"]
+    if want == "error":
+        return ("cram:output-without-command-accepted", "cram document %r is accepted although output lines precede any command: %s" % (lines, tests))
+    if len(tests) != len(want):
+        return ("cram:test-count", "cram document %r yields %d test(s), it has %d `$` commands" % (lines, len(tests), len(want)))
+    for got, w in zip(tests, want):
+        cmd = "\n".join(lines[i][4:] for i in w["cmd"])
+        if got["shell_expression"] != cmd:
+            return ("cram:shell-expression", "cram document %r: shell expression %r, written %r" % (lines, got["shell_expression"], cmd))
+        if got["line_number"] != w["line"]:
+            return ("cram:line-number", "cram document %r: line number %d, the `$` line is line %d" % (lines, got["line_number"], w["line"]))
+        if got["exit_code"] != w["exit"]:
+            return ("cram:exit-code", "cram document %r: exit code %r, written %r" % (lines, got["exit_code"], w["exit"]))
+        if got["expectations"] != [lines[i][2:] for i in w["exps"]]:
+            return ("cram:expectations", "cram document %r: expectations %r, written %r" % (lines, got["expectations"], [lines[i][2:] for i in w["exps"]]))
+        if w["title"] != "skip":
+            t = "" if w["title"] is None else lines[w["title"]]
+            if got["title"] != t:
+                return ("cram:title", "cram document %r: title %r, nearest preceding title line %r" % (lines, got["title"], t))
+        if got.get("output_stream") != "Combined" or got.get("keep_crlf") is not True:
+            return ("cram:defaults", "cram document %r: test config %s/%s instead of the Cram defaults" % (lines, got.get("output_stream"), got.get("keep_crlf")))
+    return None
+
+
+def h_cram_parse(max_len, orphan=False):
+    """orphan=False: documents in which every body line follows a command; orphan=True: the others (output before any command)"""
+    seqs = [s for s in cram_sequences(max_len) if (cram_reference(s) == "error") == orphan]
+    inputs = [("doc=%s" % (s or "(empty)"), mk_cram_setup(s)) for s in seqs]
+    if orphan:
+        h = e2.Harness("cram_output_before_command", cram_parse_driver, inputs, cram_post, native="cram_parse", judge=None,
+                       describe="a document whose indented output lines precede any `$` command is rejected (they must not become another test's expectations / exit code)",
+                       bound="all such documents of <= %d lines over the Cram line templates" % max_len)
+        h.models_cls = DocModels
+        return h
+    h = e2.Harness("cram_parse_documents", cram_parse_driver, inputs, cram_post, native="cram_parse", judge=None,
+                   describe="parse is Err, or yields one test per indented `$` command, in order, with the written shell expression (incl. `>` "
+                            "continuations), expectation lines (indentation removed, other whitespace kept), exit code, line number, nearest "
+                            "preceding title line (where unambiguous) and the Cram defaults; comments and unindented text never become body",
+                   bound="all documents of <= %d lines over the line templates %s with symbolic lowercase payload letters"
+                         % (max_len, {k: repr(v[0] + "·" * v[1] + (v[2] if len(v) > 2 else "")) for k, v in CRAM_TEMPLATES.items()}))
+    h.models_cls = DocModels
+    return h
+
+
+def replay_cram(rep, nat, h, res):
+    for model, r in res.raw_witnesses[:8]:
+        seq = r.ctx.notes["seq"]
+        lines = ["".join(chr(e2.model_int(model, c)) for c in ln) for ln in r.ctx.notes["lines"]]
+        doc = "\n".join(lines) + ("\n" if lines else "")
+        nk, nv = nat.call("cram_parse", [doc])
+        if nk != "return":
+            rep.violation("cram:panic", "CramParser::parse panics on %r: %s" % (doc, str(nv)[:80]),
+                          {"kind": "eval", "fn": "cram_parse", "args": [doc], "native": [nk, nv], "harness": h.name})
+            continue
+        bad = cram_judge_native(seq, lines, nv)
+        if bad:
+            rep.violation(bad[0], bad[1], {"kind": "eval", "fn": "cram_parse", "args": [doc], "native": [nk, nv], "harness": h.name})
+        else:
+            rep.mismatches.append("%s: solver witness %r did not reproduce natively: %s" % (h.name, doc, str(nv)[:200]))
+
+
+# =====================================================================================================
+# `update` on Markdown documents whose tests all pass (C10)
+
+
+def md_blocks(seq):
+    """block structure of a template sequence → list of ('line', i) | ('verbatim', [idx]) | ('test', open, [comments], [code], close|None)"""
+    out = []
+    i, n = 0, len(seq)
+    while i < n:
+        t = seq[i]
+        if t in ("F", "V", "E"):
+            j = i + 1
+            while j < n and seq[j] not in ("F", "V", "E"):
+                j += 1
+            body = list(range(i + 1, j))
+            close = j if j < n else None
+            if t == "F":
+                k = 0
+                while k < len(body) and seq[body[k]] == "H":
+                    k += 1
+                out.append(("test", i, body[:k], body[k:], close))
+            else:
+                out.append(("verbatim", list(range(i, (j + 1) if j < n else n))))
+            i = j + 1 if j < n else n
+        else:
+            out.append(("line", i))
+            i += 1
+    return out
+
+
+def md_update_expected(seq):
+    """what `update` with all-passing outcomes must produce, as a list of items ('orig', line idx) | ('text', str), or None where the
+    statement leaves it open (exit-code line not last, blocks without a command, bare fences …)"""
+    ref = md_reference(seq)
+    if not isinstance(ref, list):
+        return None
+    items = []
+    tests = iter(ref)
+    for b in md_blocks(seq):
+        if b[0] == "line":
+            items.append(("orig", b[1]))
+        elif b[0] == "verbatim":
+            if seq[b[1][0]] == "E":
+                return None
+            items += [("orig", x) for x in b[1]]
+        else:
+            _k, open_i, comments, code, close = b
+            if not any(seq[x] == "C" for x in code):
+                return None          # a scrut block without command: no test case, nothing prescribed here
+            t = next(tests)
+            rs = [x for x in code if seq[x] == "R"]
+            if rs and rs[-1] != code[-1]:
+                return None          # exit-code line is re-emitted last: only prescribed when it was written last
+            items.append(("orig", open_i))
+            items += [("orig", x) for x in comments]
+            items += [("orig", x) for x in code]
+            items.append(("text", "```"))
+    return items
+
+
+def md_update_driver(ctx, args):
+    """parse(document) → one passing Outcome per test → MarkdownUpdateGenerator::generate_update(document, outcomes)"""
+    prog = ctx.program
+    r = md_parse_driver(ctx, args)
+    if r.variant != "Ok":
+        return Agg("tuple", None, [SBool(False)])
+    tests = as_items(r.fields[0].fields[1])
+    outcomes = []
+    for t in tests:
+        ec = field_of(t, "exit_code")
+        code = ec.fields[0] if ec.variant == "Some" else mk_int(0, "i32")
+        out = mk_struct("Output", stderr=Agg("OutputStream", None, [VecBuf([], "u8")]), stdout=Agg("OutputStream", None, [VecBuf([], "u8")]),
+                        exit_code=Agg("ExitStatus", "Code", [code]))
+        outcomes.append(new_ref(mk_struct("Outcome", location=none(), output=out, testcase=t, format=Opaque("format"),
+                                          escaping=Agg("Escaper", "Unicode", []), result=Agg("Result", "Ok", [UNIT]))))
+    gen = Agg("MarkdownUpdateGenerator", None, [VecBuf([StringBuf([SInt(ord("s"), "char")])])])
+    f = find_method(prog, "generators/markdown.rs", "generate_update")
+    u = ctx.call(f, [new_ref(gen), args[0], Slice(outcomes)])
+    if u.variant != "Ok":
+        return Agg("tuple", None, [SBool(True), SBool(False), Str([])])
+    return Agg("tuple", None, [SBool(True), SBool(True), Str(as_str(u.fields[0]).chars), mk_int(len(tests), "usize")])
+
+
+def md_update_post(ctx, args, kind, value):
+    if kind != "return":
+        return False             # a panic (e.g. indexing the outcomes) is a crash of `update`
+    seq, lines = ctx.notes["seq"], ctx.notes["lines"]
+    f = value.fields
+    if not f[0].v:
+        return True              # the document does not parse: nothing to update
+    exp = md_update_expected(seq)
+    if exp is None:
+        return True
+    if f[3].v == 0:
+        # no outcomes: the document is returned untouched
+        exp = [("orig", i) for i in range(len(seq))]
+    if not f[1].v:
+        return False
+    want = []
+    for kind_, x in exp:
+        want += (lines[x] if kind_ == "orig" else [SInt(ord(c), "char") for c in x]) + [SInt(10, "char")]
+    return same(list(f[2].chars), want)
+
+
+def h_md_update(max_len):
+    seqs = md_sequences(max_len, "PHBFVCGXR")
+    seen = set(seqs)
+    for s_ in md_sequences(max_len + 2, "PBFCE"):
+        if s_ not in seen and "E" in s_:
+            seqs.append(s_)
+    inputs = [("doc=%s" % (s or "(empty)"), mk_md_setup(s)) for s in seqs]
+    h = e2.Harness("markdown_update_passing_tests", md_update_driver, inputs, md_update_post, native="markdown_update", judge=None,
+                   describe="updating a document whose tests all pass does not crash and returns it unchanged line for line (prose, other code "
+                            "blocks, comments, commands, expectation lines, text after the last test); an unterminated scrut block gains its closing fence",
+                   bound="all template documents of <= %d lines (and <= %d lines over P B F C E) that parse; symbolic lowercase payload letters"
+                         % (max_len, max_len + 2))
+    h.models_cls = DocModels
+    return h
+
+
+def replay_update(rep, nat, h, res):
+    for model, r in res.raw_witnesses[:8]:
+        seq = r.ctx.notes["seq"]
+        lines = ["".join(chr(e2.model_int(model, c)) for c in ln) for ln in r.ctx.notes["lines"]]
+        doc = "\n".join(lines) + ("\n" if lines else "")
+        nk, nv = nat.call("markdown_update", [doc, ["s"]])
+        exp = md_update_expected(seq)
+        if nk != "return":
+            rep.violation("update:panic", "updating the document %r (all tests passing) panics: %s" % (doc, str(nv)[:100]),
+                          {"kind": "eval", "fn": "markdown_update", "args": [doc, ["s"]], "native": [nk, nv], "harness": h.name})
+            continue
+        if "parse_error" in nv or exp is None:
+            rep.mismatches.append("%s: solver witness %r did not reproduce natively: %s" % (h.name, doc, str(nv)[:200]))
+            continue
+        if nv.get("tests") == 0:
+            exp = [("orig", i) for i in range(len(seq))]
+        want = "".join((lines[x] if k == "orig" else x) + "\n" for k, x in exp)
+        if nv.get("updated") != want:
+            trunc = nv.get("updated") is not None and len(nv["updated"]) < len(want)
+            rep.violation("update:%s" % ("truncated" if trunc else "changed-passing-document"),
+                          "updating %r with all tests passing yields %r instead of %r" % (doc, nv.get("updated", nv), want),
+                          {"kind": "eval", "fn": "markdown_update", "args": [doc, ["s"]], "native": [nk, nv], "harness": h.name})
+        else:
+            rep.mismatches.append("%s: solver witness %r did not reproduce natively" % (h.name, doc))
